@@ -24,11 +24,10 @@ from playback.interception.output_interception import OutputInterceptionDataHand
 from playback.tape_cassettes.in_memory.in_memory_tape_cassette import InMemoryTapeCassette
 from playback.tape_cassettes.file_based.file_based_tape_cassette import FileBasedTapeCassette
 
-class _UserAssertion(AssertionError):
-    """AssertionError raised by the generated service code (a failing service assert), told apart from the framework's."""
+_UserAssertion = pv.UserAssertion     # AssertionError raised by the generated service code (a failing service assert)
 
 
-EXC = {"AssertionError": _UserAssertion, "UnserError": pv.UnserError, "ValueError": ValueError, "KeyError": KeyError, "RuntimeError": RuntimeError,
+EXC = {"NoSuchRecording": lambda: NoSuchRecording("some/other-recording"), "AssertionError": _UserAssertion, "UnserError": pv.UnserError, "ValueError": ValueError, "KeyError": KeyError, "RuntimeError": RuntimeError,
        "ZeroDivisionError": ZeroDivisionError, "CustomError": pv.CustomError, "HandlerError": pv.HandlerError,
        "TypeError": TypeError}
 
@@ -442,8 +441,16 @@ def build_operation(ctx, op, prm=None):
     if key not in cache:
         holder = OpHolder()
 
+        audit = rec.static_intercept_output("audit")(lambda *a, **k: None)
+
         def extractor(*a, **k):
             ex = holder.op["extractor"]
+            if ex["kind"] == "calls_out":
+                # the extractor itself goes through an intercepted output (an audit trail, say); it runs after the operation,
+                # so nothing it sends belongs to the recording.  Its own calls are not journalled (the extractor is opaque).
+                for i in range(ex.get("n", 1)):
+                    audit("extracted", i)
+                return {kk: to_py(v) for kk, v in ex["d"]}
             if ex["kind"] == "dict":
                 return {kk: to_py(v) for kk, v in ex["d"]}
             if ex["kind"] == "raises":
